@@ -155,6 +155,21 @@ func RuleSpecs(thorough bool) ([]*spec.Spec, map[string][]RuleCase) {
 		mk("rules_bytes", "bytes", cs)
 	}
 	{
+		// string affix rules (prefix / suffix / contains, alone and together, also where prefix and suffix may overlap in a
+		// value): not in C19's rule list, but whatever the generator publishes for them must accept what the server accepts (C06)
+		cs := []RuleCase{
+			{Kind: "string", Label: "rule=prefix,bound=/", Rules: `string:{prefix:"/"}`},
+			{Kind: "string", Label: "rule=suffix,bound=/", Rules: `string:{suffix:"/"}`},
+			{Kind: "string", Label: "rule=prefix+suffix,bound=/../", Rules: `string:{prefix:"/" suffix:"/"}`},
+			{Kind: "string", Label: "rule=prefix+suffix,bound=ab..bc", Rules: `string:{prefix:"ab" suffix:"bc"}`},
+			{Kind: "string", Label: "rule=prefix,bound=a.b(", Rules: `string:{prefix:"a.b("}`},
+			{Kind: "string", Label: "rule=contains,bound=-", Rules: `string:{contains:"-"}`},
+			{Kind: "string", Label: "rule=prefix+min_len,bound=id-..5", Rules: `string:{prefix:"id-" min_len:5}`},
+			{Kind: "string", Card: "repeated", Label: "rule=items.prefix+suffix,bound=ab..bc", Rules: `repeated:{items:{string:{prefix:"ab" suffix:"bc"}}}`},
+		}
+		mk("rules_affix", "affix", cs)
+	}
+	{
 		var cs []RuleCase
 		for _, k := range []string{"string", "int32", "int64"} {
 			cs = append(cs,
